@@ -20,6 +20,8 @@ import (
 	"github.com/graphql-go/graphql/language/parser"
 	"github.com/graphql-go/graphql/language/printer"
 
+	"verif/harness/astjson"
+	"verif/harness/gq"
 	"verif/harness/hx"
 )
 
@@ -259,9 +261,18 @@ func runHistory(h *historyT, drv *hx.Driver, st *stepStats, fpCheck bool) (*divT
 					}
 					if nerr != nil {
 						info = "norm"
+						if drv != nil {
+							d = checkNormaliserModel(drv, i, q, opn, doc, nil, nil, "!rooterr")
+						}
 						return
 					}
 					info, nk, ownSynth = "ok", key, synth
+					if drv != nil {
+						if dd := checkNormaliserModel(drv, i, q, opn, doc, nd, synth, key); dd != nil {
+							d = dd
+							return
+						}
+					}
 					if fpCheck && key != "" && drv != nil {
 						if req, ok := fpRequest(nd, opn); ok {
 							var fr struct {
@@ -504,6 +515,67 @@ func stripLoc(d *ast.Document) interface{} {
 	return walk(reflect.ValueOf(d))
 }
 
+// ---------------------------------------------------------------- the normaliser against its model
+
+var schemaDescJSON = func() interface{} {
+	b, _ := json.Marshal(schemaDesc())
+	var v interface{}
+	json.Unmarshal(b, &v)
+	return v
+}()
+
+type normModelResp struct {
+	Out     string                 `json:"out"`
+	Printed string                 `json:"printed"`
+	Synth   map[string]interface{} `json:"synth"`
+}
+
+var normMemo = map[string]*normModelResp{}
+
+// checkNormaliserModel compares the real normalizeDocument (normalised document as printed text, SynthArgs) with
+// GqlModel.Normalize.normalizeDocument on the same document. key "" = not applicable, "!rooterr" = root type error.
+func checkNormaliserModel(drv *hx.Driver, step int, q, opn string, doc, nd *ast.Document, synth map[string]interface{}, key string) *divT {
+	mk := q + "\x00" + opn
+	m := normMemo[mk]
+	if m == nil {
+		m = &normModelResp{}
+		req := map[string]interface{}{"norm": map[string]interface{}{"schema": schemaDescJSON, "doc": astjson.Document(doc), "opName": opn}}
+		if err := drv.Ask(req, m); err != nil {
+			return &divT{Step: step, Kind: "driver", Note: err.Error()}
+		}
+		normMemo[mk] = m
+	}
+	goOut := "ok"
+	switch key {
+	case "":
+		goOut = "na"
+	case "!rooterr":
+		goOut = "rooterr"
+	}
+	if goOut != m.Out {
+		return &divT{Step: step, Kind: "normaliser", Note: "normalizeDocument: applicability differs from the model", Go: goOut, Model: m.Out}
+	}
+	if goOut != "ok" {
+		return nil
+	}
+	printed := fmt.Sprint(printer.Print(nd))
+	if printed != m.Printed {
+		return &divT{Step: step, Kind: "normaliser", Note: "the normalised document differs from the model of the normaliser", Go: printed, Model: m.Printed}
+	}
+	gs, ms := hx.Canon(gq.ToWire(mapOrEmpty(synth))), hx.Canon(mapOrEmpty(m.Synth))
+	if gs != ms {
+		return &divT{Step: step, Kind: "normaliser", Note: "SynthArgs differ from the model of the normaliser", Go: gs, Model: ms}
+	}
+	return nil
+}
+
+func mapOrEmpty(m map[string]interface{}) map[string]interface{} {
+	if m == nil {
+		return map[string]interface{}{}
+	}
+	return m
+}
+
 // ---------------------------------------------------------------- shrinking
 
 // shrink removes operations (whole chunks first, then single ones) while a divergence of the same kind
@@ -728,6 +800,10 @@ func runProbes() map[string]interface{} {
 		{"D-06d' normInputObjectLiteral", ``, `{ echo(o: {y: 1}) }`, nil},
 		{"D-06e normRepeatedKeyWithLiteral", ``, `{ echo(i: 3) echo(i: 3) }`, nil},
 		{"D-06f normSynthNameClash", ``, `query Q($__pcv0: Int) { echo(i: $__pcv0, s: "x") }`, map[string]interface{}{"__pcv0": 5}},
+		{"D-06h normInvalidNestedLiteral", ``, `{ echo(l: ["5"]) }`, nil},
+		{"D-06h' normInvalidNestedLiteral (input object field)", ``, `{ echo(o: {x: true}) }`, nil},
+		{"D-06i normMinusZeroID", ``, `{ echo(id: -0) }`, nil},
+		{"D-06j normUndefinedVariableCaptured", ``, `{ a: echo(s: $__pcv0) b: echo(s: "x") }`, nil},
 		{"D-06g normUnextractedString", `{ node(id: 2) { ... on Item { name(prefix: "1,sep=s2") } } }`, `{ node(id: 2) { ... on Item { name(prefix: "1", sep: "2") } } }`, nil},
 	}
 	for _, p := range probes {
@@ -842,5 +918,6 @@ func main() {
 			run.Tag("special:default-cap-boundary")
 		}
 	}
+	run.Res.Extra["normaliser_model_comparisons_distinct"] = len(normMemo)
 	run.Finish()
 }
